@@ -113,3 +113,65 @@ def check(rep, unit, fns, rule="R-TBAA"):
                              "type and not may_alias - the compiler may assume the two never alias (strict aliasing)" % (
                                  t2.get("s"), t2.get("size") or 0, t1.get("s")), x.get("ln"))
     return n
+
+
+def check_record_casts(rep, u, fns, rule="R-TBAA"):
+    """A pointer whose declared target is record T, cast to a pointer to an unrelated record U and used to read or write a
+    member (`((U *)p)->f`): the bytes of a T are interpreted as a U.  Related means: same record, U is the type of T's
+    first member (or the reverse - the container idiom), or one of them is a character/void pointer.  Returns the number
+    of cast member accesses classified."""
+    n = 0
+
+    def rec_of(tid):
+        t = u.type(tid)
+        if t["k"] != "ptr":
+            return None
+        to = u.type(t["to"])
+        if to["k"] != "rec":
+            return None
+        name = (to.get("c") or "").replace("const ", "").replace("volatile ", "").replace("struct ", "").replace("union ", "").strip()
+        return name
+
+    def first_member_rec(name):
+        r = u.records.get(name)
+        if not r or not r["fields"]:
+            return None
+        t = u.type(r["fields"][0]["t"])
+        if t["k"] == "rec":
+            return (t.get("c") or "").replace("struct ", "").replace("union ", "").strip()
+        return None
+    for fn in fns:
+        if not fn.has_cfg:
+            continue
+        per = 0
+        for pos, root, x, ps in fn.nodes():
+            if not (x.get("k") == "mem" and x.get("arrow")):
+                continue
+            b = x["b"]
+            # the outermost explicit cast directly under the member access
+            while b is not None and b.get("k") == "cast" and b.get("imp"):
+                b = b["e"]
+            if b is None or b.get("k") != "cast" or "t" not in b:
+                continue
+            dst = rec_of(b["t"])
+            src_e = _strip_all(b)
+            if dst is None or src_e is None or src_e.get("k") != "ref" or "t" not in src_e:
+                continue
+            src = rec_of(src_e["t"])
+            if src is None:
+                continue
+            per += 1
+            n += 1
+            inst = "record-cast:%s->%s#%d" % (src, dst, per)
+            desc = "%s: '%s' (a pointer to %s) is read as a %s only if the two records are related" % (fn.name, src_e.get("n"), src, dst)
+            ok = src == dst or first_member_rec(src) == dst or first_member_rec(dst) == src
+            # POSIX: the sockaddr_* records share their initial family member and sockaddr_storage exists to be cast to them
+            if src.startswith("sockaddr") and dst.startswith("sockaddr"):
+                rep.proved(rule, fn, inst, desc, "sockaddr family (POSIX: mutually castable, tagged by the family member)", x.get("ln"))
+                continue
+            if ok:
+                rep.proved(rule, fn, inst, desc, "same record or first-member container", x.get("ln"))
+            else:
+                rep.violated(rule, fn, inst, desc, "((%s *)%s)->%s at line %s reads offset %d of a %s: unrelated records (probably a member of '%s' "
+                             "was meant)" % (dst, src_e.get("n"), x.get("f"), x.get("ln"), x.get("off", 0) // 8, src, src_e.get("n")), x.get("ln"))
+    return n
